@@ -714,10 +714,9 @@ class C04Check(StatCheck):
             for r in range(n_rows):
                 fam.add("%s:r%d" % (lab, r), row_counts[(lab, r)], trials, 1.0 / n_rows)
         if pair_counts:
-            keys = list(pair_counts)
-            fa, fb = keys[0][2], keys[0][3]
-            if all(k[2] == fa and k[3] == fb for k in keys):
-                tot = sum(pair_counts.values())
+            pairs = sorted({(k[2], k[3]) for k in pair_counts})
+            for fa, fb in pairs:
+                tot = sum(c for k, c in pair_counts.items() if (k[2], k[3]) == (fa, fb))
                 for ra in range(m):
                     for rb in range(m):
                         fam.add("pair:%s:%s,%s:r%d,r%d" % (ex, fa, fb, ra, rb), pair_counts[(ra, rb, fa, fb)], tot,
